@@ -39,6 +39,7 @@ type Spec struct {
 	ID       string
 	Quick    func(l *loaded) []Inst
 	Thorough func(l *loaded) []Inst
+	NoNative bool                                         // all instances are concurrency/virtual-time harnesses without deterministic native replay
 	Solver   string                                       // preferred solver (default z3)
 	Extra    func(l *loaded) (viol []string, covered int) // concrete side check (finite, no solver)
 	Covers   []string                                     // witnesses that must be reached
@@ -419,6 +420,11 @@ func runCheck(prop, tier string, opt options) int {
 		insts = spec.Thorough(l)
 	} else {
 		insts = spec.Quick(l)
+	}
+	if spec.NoNative {
+		for i := range insts {
+			insts[i].NoNative = true
+		}
 	}
 	if spec.Solver != "" && !opt.solverSet {
 		opt.solver = spec.Solver
